@@ -1,5 +1,9 @@
 //! gv — model-checking harness for graphrs (see /verif/DESIGN.md).
 mod c01;
+mod c02;
+mod c03;
+mod c09;
+mod c15;
 mod common;
 mod e1;
 mod model;
@@ -10,6 +14,27 @@ use std::time::Instant;
 fn usage() -> ! {
     eprintln!("usage: gv run <ID> --tier quick|thorough | gv replay <ID> <path>");
     std::process::exit(2)
+}
+
+macro_rules! dispatch {
+    ($id:expr, $f:ident ( $($a:expr),* )) => {
+        match $id {
+            "C01" => c01::$f($($a),*),
+            "C02" => c02::$f($($a),*),
+            "C03" => c03::$f($($a),*),
+            "C09" => c09::$f($($a),*),
+            "C15" => c15::$f($($a),*),
+            _ => { eprintln!("unknown property {}", $id); std::process::exit(2) }
+        }
+    };
+}
+
+fn static_id(id: &str) -> &'static str {
+    const IDS: [&str; 20] = ["C01", "C02", "C03", "C04", "C05", "C06", "C07", "C08", "C09", "C10", "C11", "C12", "C13", "C14", "C15", "C16", "C17", "C18", "C19", "C20"];
+    IDS.iter().find(|x| **x == id).copied().unwrap_or_else(|| {
+        eprintln!("unknown property {id}");
+        std::process::exit(2)
+    })
 }
 
 fn main() {
@@ -23,9 +48,16 @@ fn main() {
         std::process::exit(2);
     }
     let seed: u64 = std::env::var("VERIF_SEED").ok().and_then(|s| s.parse().ok()).unwrap_or(0);
+    let known = match load_known_findings("/verif/known_findings.json") {
+        Ok(k) => k,
+        Err(e) => {
+            eprintln!("MACHINERY-ERROR: {e}");
+            std::process::exit(2);
+        }
+    };
+    let id = static_id(&args[2].to_uppercase());
     match args[1].as_str() {
         "run" => {
-            let id = args[2].to_uppercase();
             let mut tier = std::env::var("VERIF_TIER").unwrap_or_else(|_| "quick".into());
             let mut i = 3;
             while i < args.len() {
@@ -38,41 +70,23 @@ fn main() {
             if tier != "quick" && tier != "thorough" {
                 usage();
             }
-            let known = match load_known_findings("/verif/known_findings.json") {
-                Ok(k) => k,
-                Err(e) => {
-                    eprintln!("MACHINERY-ERROR: {e}");
-                    std::process::exit(2);
-                }
-            };
             let start = Instant::now();
-            let (pid, rec, out): (&'static str, Recorder, RunOutput) = match id.as_str() {
-                "C01" => {
-                    let rec = Recorder::new("C01", &known);
-                    let out = c01::run(&tier, &rec);
-                    ("C01", rec, out)
-                }
-                _ => {
-                    eprintln!("unknown property {id}");
-                    std::process::exit(2);
-                }
-            };
-            let code = finalize(pid, &tier, seed, &rec, out, start);
+            let rec = Recorder::new(id, &known);
+            let out: RunOutput = dispatch!(id, run(&tier, &rec));
+            let code = finalize(id, &tier, seed, &rec, out, start);
             std::process::exit(code);
         }
         "replay" => {
             if args.len() < 4 {
                 usage();
             }
-            let id = args[2].to_uppercase();
             let body = std::fs::read_to_string(&args[3]).expect("read replay file");
             let v: serde_json::Value = serde_json::from_str(&body).expect("replay json");
             let case = v["case"].as_str().expect("case").to_string();
             println!("replaying {id} case {case}");
-            let reproduced = match id.as_str() {
-                "C01" => c01::replay(&case),
-                _ => usage(),
-            };
+            let rec = Recorder::new(id, &[]);
+            let reproduced: bool = dispatch!(id, replay(&case, &rec));
+            rec.dump();
             println!("reproduced={reproduced}");
             std::process::exit(if reproduced { 1 } else { 0 });
         }
